@@ -71,7 +71,7 @@ func (c06) Cases(tier string) int {
 	if tier == "thorough" {
 		return 300000
 	}
-	return 5000
+	return 12000
 }
 func (c06) RaceCases(tier string) int {
 	if tier == "thorough" {
@@ -83,7 +83,7 @@ func (c06) Floor(tier string) int {
 	if tier == "thorough" {
 		return 100000
 	}
-	return 2000
+	return 5000
 }
 
 // ---------------------------------------------------------------------------------------------
@@ -229,6 +229,8 @@ func c06TwoCfgs(r *rand.Rand, unwrapOK bool) []c06Cfg {
 func c06GenYAML(r *rand.Rand, c *c06Case) {
 	c.In = "yaml"
 	var docs []*genc06.YN
+	var subNode *genc06.YN // a-alias: the sub-tree selected by subExpr is what gets converted
+	subExpr := ""
 	prof := genc06.C06Prof{MaxDepth: 1 + r.IntN(5), MaxWidth: 1 + r.IntN(5), ScalarBias: 40 + r.IntN(30)}
 	switch c.Mode {
 	case "a-general":
@@ -276,6 +278,42 @@ func c06GenYAML(r *rand.Rand, c *c06Case) {
 		}
 		c.tags = append(c.tags, fmt.Sprintf("aliases:%d", min(na, 3)), fmt.Sprintf("merges:%d", min(nm, 3)))
 		docs = []*genc06.YN{t}
+		if r.IntN(2) == 0 {
+			// convert a SUB-tree only: what it merges or aliases has not been exploded by the time it is printed
+			var kids []*genc06.YN
+			var sels []string
+			switch t.Kind {
+			case genc06.YMap:
+				for i, k := range t.Keys {
+					if (t.Merge != nil && t.Merge[i]) || strings.ContainsAny(k.KeyText(), "*?") {
+						continue // (`*` and `?` in a key select by pattern)
+					}
+					kids, sels = append(kids, t.Vals[i]), append(sels, ".["+ref.ExprString(k.KeyText())+"]")
+				}
+			case genc06.YSeq:
+				for i, it := range t.Items {
+					kids, sels = append(kids, it), append(sels, fmt.Sprintf(".[%d]", i))
+				}
+			}
+			var pick []int
+			for i, kd := range kids {
+				x := kd
+				if x.Kind == genc06.YAlias {
+					x = x.Target
+				}
+				if (x.Kind == genc06.YMap || x.Kind == genc06.YSeq) && ref.ExprStringOK(strings.Trim(sels[i], `.[]"`)) {
+					pick = append(pick, i)
+				}
+			}
+			if len(pick) > 0 {
+				i := pick[r.IntN(len(pick))]
+				if r.IntN(2) == 0 {
+					i = pick[len(pick)-1] // the last one merges / aliases the most
+				}
+				subExpr, subNode = sels[i], kids[i]
+				c.tags = append(c.tags, "subtree_conversion")
+			}
+		}
 	case "a-bigint":
 		prof.BigInts = true
 		t := genc06.C06Tree(r, prof)
@@ -371,6 +409,11 @@ func c06GenYAML(r *rand.Rand, c *c06Case) {
 			c.genErr = fmt.Sprintf("yaml.v3 reads a different value than the generator intended: %s\n%s", d[0].String(), clipStr(c.Input, 800))
 			return
 		}
+	}
+	if subNode != nil {
+		// (after the self-check on the whole document) the case converts the selected sub-tree only
+		c.Expr = subExpr
+		c.exp.Want = []*ref.V{subNode.Resolve(c.exp.Unordered)}
 	}
 }
 
@@ -991,10 +1034,20 @@ func c06FromNode(n *yaml.Node, unordered map[*ref.V]bool, depth ...int) (*ref.V,
 				return nil, err
 			}
 			if k.ShortTag() == "!!merge" {
-				if e.K != ref.Map {
-					return nil, fmt.Errorf("merge of a non-map")
+				srcs := []*ref.V{e}
+				if e.K == ref.Seq {
+					srcs = e.A
 				}
-				v.M = append(v.M, e.Copy().M...)
+				for _, src := range srcs {
+					if src.K != ref.Map {
+						return nil, fmt.Errorf("merge of a non-map")
+					}
+					for _, kv := range src.Copy().M {
+						if _, dup := v.Get(kv.K); !dup {
+							v.M = append(v.M, kv)
+						}
+					}
+				}
 				unordered[v] = true
 				continue
 			}
